@@ -71,6 +71,12 @@ CHECKS.update({
    text="Delivery details are owned by a wrapper around provider.events() with its own cursor; the outcome of the mangled run must equal the clean run and the reference tree. Where timing is identical (immediate duplicates) the mangled run may not perform any additional successful create/upload/delete; walks and bogus events at a quiet point must cause no provider mutation.",
    note=E_NOTE + " Walk replays overtaking pending renames on a path-style side are an open finding (KF-32)."),
 })
+CHECKS.update({
+ "C08": dict(engine="E-engine-harness", category="exploration", design_ref="2/C08",
+   technique="invariant checking over generated engine histories (after every single step: decoded storage rows == live entries field by field; a state reloaded from a copy of the storage must answer all lookups and the pending set identically) plus round-trip property testing of the entry codec with generated hash/id value shapes and legacy row formats",
+   text="The persisted==in-memory clause is evaluated after every event-intake and sync step of generated histories (with conflict gadgets, so splits, merges and discards occur); the codec clause serialises generated entries, stores the row and loads it through the real SyncState loader, including rows in the formats older releases wrote.",
+   note=E_NOTE),
+})
 NOT_YET = {}
 
 def main():
